@@ -302,7 +302,7 @@ def stream_spec(tlen, nops, timeout):
 
 def run(rep, tier, seed):
     quick = tier == "quick"
-    to = 60 if quick else 240
+    to = 60 if quick else 150
     rep.encoded("src/basilisp/lang/reader.py", ["read_str", "read", "_read_next", "_read_coll", "_read_sym", "_read_num", "_read_str",
                                                  "_read_reader_macro", "_read_meta", "StreamReader.next_char", "StreamReader._update_loc",
                                                  "StreamReader.pushback", "StreamReader.advance", "_with_loc"],
@@ -310,7 +310,7 @@ def run(rep, tier, seed):
     specs = [stream_spec(3 if quick else 4, 3 if quick else 5, to)]
     if not quick:
         specs.append(total_unicode_spec(1, 900))
-    na, ne, ns = (2, 2, 3) if quick else (3, 4, 4)
+    na, ne, ns = (2, 2, 3) if quick else (3, 3, 4)
     specs += [total_alpha_spec(na, to, f) for f in range(len(ALPHA_DELIM))]
     specs += [total_token_spec(TOKENS_DISPATCH, "dispatch", 2 if quick else 3, to * 2, f) for f in range(len(TOKENS_DISPATCH))]
     specs += [total_token_spec(TOKENS_COND, "reader-conditional", 4 if quick else 5, to * 2, f) for f in (0, 1, 7, 10)]
